@@ -496,7 +496,7 @@ func c20cases(quick bool) []c20case {
 		cs = append(cs, c20case{Driver: "shuffletips", N: n})
 	}
 	// other shapes: a tree rooted on a tip (the root has one neighbour and is a tip itself), a rooted binary tree, a caterpillar
-	cs = append(cs, c20case{Driver: "shuffletips", N: 4, Shape: "(((t1:1,t2:1):1,t3:1):1)t0;"}, c20case{Driver: "shuffletips", N: 3, Shape: "((t1:1,t2:1):1)t0;"},
+	cs = append(cs, c20case{Driver: "shuffletips", N: 2, Shape: "(t0:1,t1:2);"}, c20case{Driver: "shuffletips", N: 4, Shape: "(((t1:1,t2:1):1,t3:1):1)t0;"}, c20case{Driver: "shuffletips", N: 3, Shape: "((t1:1,t2:1):1)t0;"},
 		c20case{Driver: "shuffletips", N: 4, Shape: "((t0:1,t1:1):1,(t2:1,t3:1):1);"}, c20case{Driver: "shuffletips", N: 5, Shape: "((((t0:1,t1:1):1,t2:1):1,t3:1):1,t4:1);"})
 	shapes := []string{"(a,b,c);", "(a,b,c,d);", "((a,b),c,d);", "((a,b),(c,d));", "((a,b,c),d,e);", "(a,b,c,d,e);", "((a,b),(c,d),e);"}
 	if !quick {
